@@ -3,7 +3,7 @@ import io, os, sys
 sys.path.insert(0, os.path.dirname(__file__))
 from _common import main
 
-BOUND = 'data that is itself all 0x40 / all 0x00 (one-shot and streaming, block-edge lengths); every residue of bytes-already-written mod 1012 in {0,1,2,505,506,1010,1011} reached by 2 chunkings (trailer pending and trailer written for residue 0) x every next write length 0..3040 (quick: step 1 around block edges +-3, else step 97; thorough: all) ; one-shot blocker for n in 0..3100; finalise via seek(0) and close()'
+BOUND = 'streams of 4..70 KiB around the usual buffer sizes; data that is itself all 0x40 / all 0x00 (one-shot and streaming, block-edge lengths); every residue of bytes-already-written mod 1012 in {0,1,2,505,506,1010,1011} reached by 2 chunkings (trailer pending and trailer written for residue 0) x every next write length 0..3040 (quick: step 1 around block edges +-3, else step 97; thorough: all) ; one-shot blocker for n in 0..3100; finalise via seek(0) and close()'
 
 
 def data(n, off=0, fill=None):
@@ -66,7 +66,7 @@ def oracle(inp):
     chunks = inp.get('chunks')
     if chunks is None:
         n, r, m = inp['n'], inp['r'], inp['m']
-        if n < 0 or m < 0 or not 0 <= r <= 1012 or (n + r) % 1012 or n > 40000 or m > 40000 or (r == 0 and n < 2024):
+        if n < 0 or m < 0 or not 0 <= r <= 1012 or (n + r) % 1012 or n > 100000 or m > 100000 or (r == 0 and n < 2024):
             return None                 # not a reachable blocker state
         chunks = chunks_for(n, r) + [m]
     f = io.BytesIO()
@@ -118,6 +118,10 @@ def cases(tier, rng):
         for ch in ([1012], [1012, 1012], [5, 1007], [1012, 3], [2024, 1012], [1, 1, 1], [1014], [3000]):
             yield {'kind': 'stream', 'chunks': ch, 'how': 'seek', 'fill': fill}
             yield {'kind': 'stream', 'chunks': ch, 'how': 'close', 'fill': fill}
+    for n in (4095, 4096, 8192, 16383, 16384, 16385, 17000, 32768, 65536, 70001):
+        yield {'kind': 'oneshot', 'n': n}
+        yield {'kind': 'stream', 'chunks': [n], 'how': 'seek'}
+        yield {'kind': 'stream', 'chunks': [n // 3, n - n // 3 - 5, 5], 'how': 'close'}
     prefixes = [[], [1], [2], [505], [506, 0], [1010], [1011], [1000, 11], [1012], [1011, 1], [2024], [1012, 1012], [2023, 1], [300, 300, 412]]
     lens = range(0, 3041) if tier == 'thorough' else sorted(edges | set(range(0, 3041, 97)))
     for p in prefixes:
